@@ -1021,23 +1021,27 @@ class FnAnalysis:
         return outs
 
     # -- loops
-    def loop_common(self, e, st, pre_bind, cond=None, has_zero=True):
+    def loop_common(self, e, st, pre_bind, cond=None, has_zero=True, iter_term=None):
         lid = e.get("id")
         body = e["body"]
-        assigned, mutated_streams = _assigned_in(body, self)
+        assigned, mutated, mutated_streams = _assigned_in(body, self)
         outs = []
         if has_zero:
             z = st.fork()
             self.ev(z, "loop", e, what="skip", lid=lid)
             outs.append((z, ("unit",)))
         s = st
-        self.ev(s, "loop", e, what="enter", lid=lid)
+        self.ev(s, "loop", e, what="enter", lid=lid, iter=iter_term)
         # havoc
         for var in assigned:
             if var in s.env:
                 atom = V("loop%s:%s" % (lid, self.var_names.get(var, var)))
                 self.havoc_src.setdefault(atom, set()).add(s.env[var])
                 s.env[var] = atom
+        # variables that are only mutated in place (field/index stores, &mut borrows) keep their structure but get a new version
+        for var in mutated - assigned:
+            if var in s.env and not _is_ref_ty(self.var_types.get(var, "")):
+                s.env[var] = ("mut", s.env[var], "loop%s" % lid)
         for var in mutated_streams:
             for key in s.under.get(var, frozenset([var])):
                 s.pos[key] = V("looppos%s:%s" % (lid, self.var_names.get(key, key)))
@@ -1085,7 +1089,7 @@ class FnAnalysis:
 
             def pre(s0, itv=itv, lid=lid):
                 self.bind(s0, e["pat"], ("elem", itv, lid), e["iter"])
-            outs.extend(self.loop_common(e, s, pre))
+            outs.extend(self.loop_common(e, s, pre, iter_term=itv))
         return outs
 
     def e_While(self, e, st):
@@ -1144,7 +1148,8 @@ class FnAnalysis:
             self.ev(st, "arith", e, op=op, l=vals[0], r=vals[1], lty=tys[0], rty=tys[1], flavour=flavour, ty=tys[0])
             return ("bin", op, vals[0], vals[1])
         if fn in PAYLOAD_TRANSPARENT and vals:
-            self.ev(st, "call", e, fn=fn, args=tuple(vals), arg_nodes=arg_nodes, recv=recv_node, ret=vals[0], effects=(), uid=None, tys=tys)
+            self.ev(st, "call", e, fn=fn, args=tuple(vals), arg_nodes=arg_nodes, recv=recv_node, ret=vals[0], effects=(), uid=None, tys=tys,
+                    argkeys=[frozenset() for _ in arg_nodes], pos_before={}, pos_after={}, direct=None, targs=e.get("targs"), resolved=e.get("resolved"))
             return vals[0]
         # stream model
         effects = []
@@ -1226,7 +1231,7 @@ class FnAnalysis:
                     st.vers += 1
                     st.env[rv] = ("mut", st.env[rv], st.vers)
         self.ev(st, "call", e, fn=fn, resolved=e.get("resolved"), args=tuple(vals), arg_nodes=arg_nodes, recv=recv_node,
-                ret=ret, effects=tuple(effects), tys=tys, targs=e.get("targs"), pos_before=pos_before,
+                ret=ret, effects=tuple(effects), tys=tys, targs=e.get("targs"), pos_before=pos_before, argkeys=keysets,
                 pos_after={k: self.getpos(st, k) for ks in keysets for k in ks}, direct=direct)
         return ret
 
@@ -1299,13 +1304,17 @@ def _assigned_in(body, fa):
     """variables assigned / mutably borrowed inside a loop body, and stream roots touched there (syntactic)"""
     from hir import walk
     assigned = set()
+    mutated = set()
     streams = set()
     for n in walk(body):
         k = n["k"]
         if k in ("Assign", "AssignOp"):
             rv = fa.root_var(n["l"])
             if rv is not None:
-                assigned.add(rv)
+                if n["l"]["k"] == "Local":
+                    assigned.add(rv)
+                else:
+                    mutated.add(rv)
         elif k in ("Call", "MCall"):
             args = ([n["recv"]] if k == "MCall" else []) + n["args"]
             for a in args:
@@ -1313,10 +1322,10 @@ def _assigned_in(body, fa):
                 if rv is None:
                     continue
                 if _is_mut_borrow(a):
-                    assigned.add(rv)
+                    mutated.add(rv)
                 if a["ty"].startswith("&mut") or a.get("aty", "").startswith("&mut") or _is_mut_borrow(a):
                     streams.add(rv)
-    return assigned, streams
+    return assigned, mutated, streams
 
 
 # ------------------------------------------------------------------------------------------------
